@@ -66,12 +66,83 @@ def _run_chunk(chunk):
         finally:
             signal.setitimer(signal.ITIMER_REAL, 0)
         r.extra["wall"] = time.time() - t0
+        if r.violations:
+            _minimise(item, r)
         for v in r.violations:
             if not v.get("_ctx_done"):
                 v["key"] = tuple(v["key"] if isinstance(v["key"], (tuple, list)) else (v["key"],)) + context_of(v.get("item") if isinstance(v.get("item"), dict) else item)
                 v["_ctx_done"] = True
         out.append((idx, r))
     return out
+
+
+_base_keys = {}
+
+
+def _tkey(k):
+    return tuple(k) if isinstance(k, (tuple, list)) else (k,)
+
+
+def _minimise(item, r):
+    """fewest deviations first (DESIGN 3.6): a violation met on a layout variant, or under the configuration that enables every
+    optional rule, is re-tried on smaller executions - the undeviated seed under the default configuration, the undeviated seed
+    with only the culprit rule enabled, the undeviated seed under the same configuration - and is reported with the first of these
+    that shows it as witness and context, so that one defect is one finding however many variants of the failing input are enumerated"""
+    if not isinstance(item, dict) or "seed" not in item or "lines" in item:
+        return
+    ENALL = "%cfg:optional_rules.enable_all=true"
+    iid = item.get("id", "")
+    has_ops = bool(item.get("ops"))
+    enall = iid.endswith(ENALL)
+    if not has_ops and not enall:
+        return
+    try:
+        from . import layout
+
+        vid = layout.vid(item["seed"], [tuple(o) for o in item.get("ops", ())])
+        if not iid.startswith(vid):
+            return
+        suffix = iid[len(vid):]
+        core = {k: v for k, v in item.items() if k not in ("focus", "ops", "id", "cfg")}
+
+        def cand(cfg, sfx):
+            return dict(core, ops=[], cfg=cfg, id=item["seed"] + sfx)
+
+        def keys_of(c):
+            if c["id"] not in _base_keys:
+                if len(_base_keys) > 500:
+                    _base_keys.clear()
+                signal.setitimer(signal.ITIMER_REAL, _worker_horizon)
+                try:
+                    rb = _worker_fn(dict(c))
+                    _base_keys[c["id"]] = {_tkey(v["key"]) for v in rb.violations if not v.get("_ctx_done")}
+                except Timeout:
+                    _base_keys[c["id"]] = set()
+                finally:
+                    signal.setitimer(signal.ITIMER_REAL, 0)
+            return _base_keys[c["id"]]
+
+        for v in r.violations:
+            if v.get("_ctx_done") or not (v.get("item") is None or (isinstance(v.get("item"), dict) and v["item"].get("id") == iid)):
+                continue
+            k = _tkey(v["key"])
+            cands = []
+            if enall:
+                style_sfx = suffix[: -len(ENALL)]
+                cands.append(cand(None, style_sfx))
+                culprit = str(k[0])
+                if culprit and culprit in (item.get("cfg") or {}).get("rule", {}):
+                    cands.append(cand({"rule": {culprit: {"disable": False}}}, style_sfx + f"%cfg:{culprit}.disable=false"))
+            if has_ops:
+                cands.append(cand(item.get("cfg"), suffix))
+            for c in cands:
+                if k in keys_of(c):
+                    v["item"] = {kk: x for kk, x in c.items() if kk != "lines"}
+                    break
+    except Timeout:
+        raise
+    except Exception:  # noqa  (minimisation is best effort: without it the violation keeps its own context)
+        return
 
 
 def product_raised(tb):
